@@ -430,7 +430,7 @@ pub fn params(thorough: bool) -> UniverseParams {
     if !thorough {
         UniverseParams {
             ints: vec!["0", "1", "2", BIG],
-            bins: vec![vec![], vec![0], vec![1], vec![0, 1]],
+            bins: vec![vec![], vec![0], vec![1], vec![0, 1], vec![0, 1, 2]],
             names: vec![None, a, b],
             labels: vec![None, x, y],
             f1: vec![one(), z(), nil()],
@@ -453,7 +453,7 @@ pub fn params(thorough: bool) -> UniverseParams {
     } else {
         UniverseParams {
             ints: vec!["0", "1", "2", BIG],
-            bins: vec![vec![], vec![0], vec![1], vec![0, 1]],
+            bins: vec![vec![], vec![0], vec![1], vec![0, 1], vec![0, 1, 2]],
             names: vec![None, a, b],
             labels: vec![None, x, y],
             f1: vec![int("0"), one(), int(BIG), bin(&[]), z(), nil(), named0("Ok")],
